@@ -83,7 +83,7 @@ def generate(tier, rng):
         for n in range(0, maxlen + 1):
             for h in itertools.product(al, repeat=n):
                 hists.append((cfg, list(h), KEYS))
-    nrand = 300 if tier == "quick" else 5000
+    nrand = 1500 if tier == "quick" else 5000
     for _ in range(nrand):
         cfg = rng.choice(CONFIGS + [(19, 2), (3, 0), (1, 2)])
         keys = [rng.below(60) for _ in range(rng.range(2, 8))]
